@@ -16,6 +16,7 @@
 #include "../sim/alloc_seam.h"
 #include <symengine/ntheory.h>
 #include <symengine/ntheory_funcs.h>
+#include <symengine/symengine_exception.h>
 #include <symengine/prime_sieve.h>
 #include <symengine/integer.h>
 #include <symengine/rational.h>
@@ -397,6 +398,7 @@ Json gen(uint64_t seed, const std::string &tier)
                         }
                         last_m = m;
                         o["m"] = (long long)m;
+                        o["abig"] = (unsigned)(g.chance(1, 6) ? 1 + g.below(4) : 0);
                         o["a"] = (long long)g.below(g.chance(1, 8) ? 3 * m : m);
                         o["n"] = (long long)(1 + g.below(g.chance(1, 2) ? 4 : 12));
                         o["r"] = (long long)g.range(-3, 5);
@@ -1049,6 +1051,35 @@ bool do_pure(const Json &o, Outcome &out)
     if (fn == "polygonal_number" || fn == "polygonal_root") {
         long long s = 3 + (x < 0 ? -x : x) % 40;
         long long n = 1 + (y < 0 ? -y : y) % 100000;
+        if ((w & 3) == 0) { // large arguments: both just below 2^31, or one large one small
+            s = 3 + (x < 0 ? -x : x) % 2147483000LL;
+            n = 1 + (y < 0 ? -y : y) % 2147483000LL;
+            if (w & 4)
+                s = 3 + s % 1000;
+        }
+        if ((w & 8) && fn == "polygonal_number") {
+            // the symbolic-layer function on Integer arguments, judged in raw GMP
+            Z S(s), N(n), t, u, acc;
+            mpz_sub_ui(t.v, S.v, 2);
+            mpz_mul(t.v, t.v, N.v);
+            mpz_mul(t.v, t.v, N.v); // (s-2) n^2
+            mpz_sub_ui(u.v, S.v, 4);
+            mpz_mul(u.v, u.v, N.v); // (s-4) n
+            mpz_sub(acc.v, t.v, u.v);
+            mpz_divexact_ui(acc.v, acc.v, 2);
+            out.canon = polygonal_number(I(s), I(n))->__str__();
+            fn = "polygonal_number[Basic](" + std::to_string(s) + ", " + std::to_string(n) + ")";
+            expect(acc.str());
+            if (out.error.empty()) {
+                std::string back = principal_polygonal_root(I(s), integer(integer_class(acc.str())))->__str__();
+                if (back != std::to_string(n))
+                    out.error = "principal_polygonal_root(" + std::to_string(s) + ", " + acc.str() + ") = " + back
+                                + ", expected " + std::to_string(n);
+            }
+            return true;
+        }
+        if (s > 42 || n > 100000)
+            s = 3 + s % 40, n = 1 + n % 100000;
         i128 P = ((i128)(s - 2) * n * n - (i128)(s - 4) * n) / 2;
         if (fn == "polygonal_number") {
             out.canon = integer(mp_polygonal_number(integer_class((long)s),
@@ -1162,6 +1193,16 @@ Outcome do_call(const Json &o, Run &run)
     u64 m = (u64)std::max<int64_t>(2, o.geti("m", 7));
     u64 a = (u64)std::max<int64_t>(0, o.geti("a", 0));
     auto I = [](u64 v) { return integer(integer_class((unsigned long)v)); };
+    // the base of the modular functions, optionally as a multi-limb number
+    // with the same residue: a + m * (2^(64 j) + c)
+    RCP<const Integer> IA = I(a);
+    if (o.geti("abig") > 0) {
+        integer_class K(1);
+        K = K << (unsigned long)(64 * std::min<int64_t>(4, o.geti("abig")));
+        K = K + integer_class((long)(o.geti("abig") * 7 + 3));
+        IA = integer(integer_class((unsigned long)a) + integer_class((unsigned long)m) * K);
+        run.probe("multi_limb_base");
+    }
     if (fn.compare(0, 6, "factor") == 0 && fn != "factor_big" && fn != "factorial") {
         RCP<const Integer> f;
         int ret;
@@ -1314,7 +1355,7 @@ Outcome do_call(const Json &o, Run &run)
     }
     if (fn == "multiplicative_order") {
         RCP<const Integer> ord;
-        bool ok = multiplicative_order(outArg(ord), I(a), I(m));
+        bool ok = multiplicative_order(outArg(ord), IA, I(m));
         u64 w = order64(a, m);
         out.canon = ok ? ord->__str__() : "none";
         std::string ws = w ? std::to_string(w) : "none";
@@ -1364,8 +1405,8 @@ Outcome do_call(const Json &o, Run &run)
     }
     if (fn == "is_quad_residue" || fn == "is_nth_residue") {
         u64 nn = fn == "is_quad_residue" ? 2 : n;
-        bool got = fn == "is_quad_residue" ? is_quad_residue(*I(a), *I(m))
-                                           : is_nth_residue(*I(a), *I(nn), *I(m));
+        bool got = fn == "is_quad_residue" ? is_quad_residue(*IA, *I(m))
+                                           : is_nth_residue(*IA, *I(nn), *I(m));
         bool w = !roots_bruteforce(a, nn, m).empty();
         out.canon = got ? "1" : "0";
         if (got != w)
@@ -1378,7 +1419,7 @@ Outcome do_call(const Json &o, Run &run)
         std::vector<u64> want = roots_bruteforce(a, n, m);
         if (fn == "nthroot_mod") {
             RCP<const Integer> root;
-            bool ok = nthroot_mod(outArg(root), I(a), I(n), I(m));
+            bool ok = nthroot_mod(outArg(root), IA, I(n), I(m));
             if (ok != !want.empty())
                 out.error = "nthroot_mod(" + std::to_string(a) + ", " + std::to_string(n)
                             + ", " + std::to_string(m) + ") says "
@@ -1393,7 +1434,7 @@ Outcome do_call(const Json &o, Run &run)
             out.canon = ok ? "some-root" : "none"; // which root is unspecified
         } else {
             std::vector<RCP<const Integer>> roots;
-            nthroot_mod_list(roots, I(a), I(n), I(m));
+            nthroot_mod_list(roots, IA, I(n), I(m));
             std::vector<u64> got;
             for (auto &r : roots)
                 got.push_back(residue(*r, m)); // residues: negative
@@ -1436,7 +1477,7 @@ Outcome do_call(const Json &o, Run &run)
         std::vector<u64> want = roots_bruteforce(target_red, s_red, m);
         if (fn == "powermod") {
             RCP<const Integer> pw;
-            bool ok = powermod(outArg(pw), I(a), b, I(m));
+            bool ok = powermod(outArg(pw), IA, b, I(m));
             if (ok != !want.empty())
                 out.error = "powermod(" + std::to_string(a) + ", " + b->__str__() + ", "
                             + std::to_string(m) + ") says "
@@ -1450,7 +1491,7 @@ Outcome do_call(const Json &o, Run &run)
             out.canon = ok ? "some" : "none";
         } else {
             std::vector<RCP<const Integer>> pws;
-            powermod_list(pws, I(a), b, I(m));
+            powermod_list(pws, IA, b, I(m));
             std::vector<u64> got;
             for (auto &x : pws)
                 got.push_back(residue(*x, m));
@@ -1477,7 +1518,7 @@ std::string call_key(const Json &o)
            + std::to_string(o.geti("r")) + "|" + std::to_string(o.geti("B")) + "|"
            + std::to_string(o.geti("x")) + "|" + std::to_string(o.geti("y")) + "|"
            + std::to_string(o.geti("z")) + "|" + std::to_string(o.geti("w")) + "|"
-           + o.gets("N") + "|" + std::to_string(o.geti("k"));
+           + o.gets("N") + "|" + std::to_string(o.geti("k")) + "|" + std::to_string(o.geti("abig"));
 }
 
 void exec(Run &run)
